@@ -935,6 +935,41 @@ type crashRun struct {
 	probeBlocked bool
 }
 
+// crBirthImage: an image taken inside the very first Open holds no acknowledged write; the DB must open (empty)
+// and be usable.
+func crBirthImage(img *stor.Stor, o *opt.Options) (sig, msg string) {
+	var db *leveldb.DB
+	err, hung := crCall(crWdTimeout, func() (err error) { db, err = leveldb.Open(img, o); return })
+	if hung {
+		return "open-hang", "Open did not return"
+	}
+	if err != nil {
+		return "open-refused", fmt.Sprintf("Open fails: %v", err)
+	}
+	got, derr := crDumpDB(db)
+	if derr != nil || len(got) != 0 {
+		crCall(crWdTimeout, db.Close)
+		return "not-empty", fmt.Sprintf("scan: %d pairs, err=%v", len(got), derr)
+	}
+	if err := db.Put([]byte("birth"), []byte("x"), &opt.WriteOptions{Sync: true}); err != nil {
+		crCall(crWdTimeout, db.Close)
+		return "put-error", err.Error()
+	}
+	if _, h := crCall(crWdTimeout, db.Close); h {
+		return "close-hang", "Close did not return"
+	}
+	err, hung = crCall(crWdTimeout, func() (err error) { db, err = leveldb.Open(img, o); return })
+	if hung || err != nil {
+		return "reopen", fmt.Sprintf("reopen after use: err=%v hung=%v", err, hung)
+	}
+	v, gerr := db.Get([]byte("birth"), nil)
+	crCall(crWdTimeout, db.Close)
+	if gerr != nil || string(v) != "x" {
+		return "lost-write", fmt.Sprintf("Get after reopen: %q, %v", v, gerr)
+	}
+	return "", ""
+}
+
 func (cr *crashRun) run(r *rng.R) {
 	e := cr.env
 	c := e.c
@@ -942,10 +977,30 @@ func (cr *crashRun) run(r *rng.R) {
 	st.KeepOps(false)
 	st.ListOrder = r.Intn(3) // Storage.List promises no order; images inherit it
 	var db *leveldb.DB
+	// the creation window: a crash before any mutating operation of the very first Open
+	var birth []*stor.Stor
+	var birthOps []string
+	br := r.Fork()
+	st.SetHooks(nil, func(s *stor.Stor, op stor.Op) {
+		if op.Kind.Mutating() && len(birth) < 16 {
+			birth = append(birth, s.ImageLocked(br))
+			birthOps = append(birthOps, string(op.Kind)+"/"+crFdName(op.Fd))
+		}
+	})
 	err, hung := crCall(crWdTimeout, func() (err error) { db, err = leveldb.Open(st, e.o); return })
+	st.SetHooks(nil, nil)
 	if hung || err != nil {
 		c.Res.Violate(e.sigPref+"workload:open", fmt.Sprintf("creating the DB: err=%v hung=%v", err, hung), e.spec)
 		return
+	}
+	for i, img := range birth {
+		if sig, msg := crBirthImage(img, e.o); sig != "" {
+			c.Res.Violate(e.sigPref+"open:creation-window:"+sig, fmt.Sprintf("crash during the creation of the DB, before storage op #%d (%s): %s", i+1, birthOps[i], msg), map[string]interface{}{"spec": e.spec, "image": crImageHex(img)})
+			break
+		}
+		atomic.AddInt64(&e.nimg, 1)
+		c.Res.Eval(fmt.Sprintf("%s/%d/birth/%d", e.spec.Config, e.spec.Seed, i), true)
+		c.Res.CountN("crash_op", "creation:"+birthOps[i], 1)
 	}
 	ir := r.Fork()
 	cr2 := r.Fork()
